@@ -918,6 +918,9 @@ int main(void) {
   int tk = VP_LEX();
   if (len == 0) {
     VP_ASSERT(tk == vp_eofret[vpi_sc], "end of input: EOF action of the current start condition");
+    VP_ASSERT(VP_START() == vpi_sc, "end of input does not change the start condition");
+    if (vpi_status != YY_BUFFER_EOF_PENDING || vpi_n == 0)
+      VP_ASSERT(vp_bs.yyatbol == 1 && vp_bs.yy_buffer_status == YY_BUFFER_NEW, "after end of input the buffer is ready for a new source, at beginning of line");
     return 0;
   }
   const char *tx = VP_TEXT; int tl = VP_LENG;
@@ -1276,7 +1279,7 @@ def api_harness(g, cfg, spec, n, witness=False, alloc_fail=False, second_lex=Fal
         H.append('#define VP_WITNESS 1')
     H.append(r'''
 unsigned char vpi_a[VP_N > 0 ? VP_N : 1], vpi_b[VP_N > 0 ? VP_N : 1];
-int vpi_op, vpi_sc, vpi_tail0, vpi_tail1;
+int vpi_op, vpi_sc, vpi_tail0, vpi_tail1, vpi_stale;
 static char vp_bufa[VP_N + 2], vp_bufb[VP_N + 2];
 
 /* the current buffer's unread input must be exactly s[0..k) */
@@ -1299,7 +1302,7 @@ int main(void) {
 #include "vp_replay_set.inc"
 #else
   for (int i = 0; i < VP_N; i++) { vpi_a[i] = nondet_uchar(); vpi_b[i] = nondet_uchar(); }
-  vpi_op = nondet_int(); vpi_sc = nondet_int(); vpi_tail0 = nondet_int(); vpi_tail1 = nondet_int();
+  vpi_op = nondet_int(); vpi_sc = nondet_int(); vpi_tail0 = nondet_int(); vpi_tail1 = nondet_int(); vpi_stale = nondet_int();
 #if VP_ALLOC_FAIL
   vpi_fail_at = nondet_int();
 #endif
@@ -1355,6 +1358,9 @@ int main(void) {
   }
   int used = (VP_N == 0) ? 0 : VP_LENG;
   int eof_reset = (VP_N == 0);
+  /* while a buffer is current the scanner keeps its character count in the scanner state; the copy in
+   * the buffer object is stale (after a refill it really differs) until the buffer is left */
+  if (!eof_reset) vpA->yy_n_chars = vpi_stale;
   switch (VP_OP) {
   case 0: /* switch away and back */
     yy_switch_to_buffer(vpB VP_A1);
@@ -1612,7 +1618,7 @@ def with_tables(harness_text, g, tables_path):
     return harness_text, len(data)
 
 
-def stack_harness(g, cfg, spec, npush=27, nsym=4, witness=False):
+def stack_harness(g, cfg, spec, npush=27, nsym=3, witness=False):
     """Start-condition stack: (a) npush pushes with symbolic conditions (past
     YY_START_STACK_INCR) then as many pops, LIFO order; (b) a short sequence of
     solver-chosen push/pop/begin operations against an array model; (c) pop of
@@ -1638,12 +1644,23 @@ int main(void) {
 #endif
   VP_ASSUME(vpi_sc0 >= 0 && vpi_sc0 < VP_NSC);
   VP_ASSUME(vpi_underflow == 0 || vpi_underflow == 1);
-  for (int i = 0; i < VP_NPUSH; i++) VP_ASSUME(vpi_val[i] < VP_NSC);
+  /* the deep part uses a fixed pattern of conditions (sizes and indices stay concrete); the short
+   * history before it is chosen by the solver */
+  for (int i = 0; i < VP_NPUSH; i++) VP_ASSUME(vpi_val[i] == (unsigned char)((i * 3 + 1) % VP_NSC));
   for (int i = 0; i < VP_NSYM; i++) VP_ASSUME(vpi_op[i] <= 2 && vpi_arg[i] < VP_NSC);
   vp_expect_fatal = 0;
   VP_INIT_SCANNER();
   VP_BEGIN(vpi_sc0);
   int cur = vpi_sc0;
+  /* (a) deep stack: growth past the initial allocation, then LIFO order */
+  int base = vp_depth;
+  for (int i = 0; i < VP_NPUSH; i++) { int v = (i * 3 + 1) % VP_NSC; vp_model[vp_depth++] = cur; cur = v; yy_push_state(v VP_A1); }
+  VP_ASSERT(VP_START() == cur, "condition after the pushes");
+  for (int i = 0; i < VP_NPUSH; i++) {
+    yy_pop_state(VP_A0); cur = vp_model[--vp_depth];
+    VP_ASSERT(VP_START() == cur, "pops return the conditions in reverse order of the pushes");
+  }
+  VP_ASSERT(vp_depth == base, "model depth");
   /* (b) solver-chosen short history */
   for (int i = 0; i < VP_NSYM; i++) {
     if (vpi_op[i] == 0) { vp_model[vp_depth++] = cur; cur = vpi_arg[i]; yy_push_state(vpi_arg[i] VP_A1); }
@@ -1656,16 +1673,8 @@ int main(void) {
     if (vp_depth > 0) VP_ASSERT(yy_top_state(VP_A0) == vp_model[vp_depth - 1], "yy_top_state() is the condition a pop would return to");
 #endif
   }
-  /* (a) deep stack: growth past the initial allocation, then LIFO order */
-  int base = vp_depth;
-  for (int i = 0; i < VP_NPUSH; i++) { vp_model[vp_depth++] = cur; cur = vpi_val[i]; yy_push_state(vpi_val[i] VP_A1); }
-  VP_ASSERT(VP_START() == cur, "condition after the pushes");
-  for (int i = 0; i < VP_NPUSH; i++) {
-    yy_pop_state(VP_A0); cur = vp_model[--vp_depth];
-    VP_ASSERT(VP_START() == cur, "pops return the conditions in reverse order of the pushes");
-  }
-  VP_ASSERT(vp_depth == base, "model depth");
-  while (vp_depth > 0) { yy_pop_state(VP_A0); cur = vp_model[--vp_depth]; }
+  for (int i = 0; i < VP_NSYM; i++) if (vp_depth > 0) { yy_pop_state(VP_A0); cur = vp_model[--vp_depth]; }
+  VP_ASSERT(vp_depth == 0, "model stack empty");
   VP_ASSERT(VP_START() == cur, "stack emptied");
 #ifdef VP_WITNESS
   VP_ASSERT(!(vpi_op[0] == 0 && vpi_op[1] == 1 && vpi_op[2] == 0), "WITNESS: push, pop, push history");
